@@ -24,7 +24,7 @@ import traceback
 from pathlib import Path
 from typing import Any, Callable, Iterable, Optional, Sequence
 
-VERIF = Path('/verif')
+VERIF = Path(os.environ.get('VERIF_ROOT', '/verif'))   # the machinery's own root (a private copy for experiments)
 REPO = Path(os.environ.get('VERIF_REPO', '/repo'))   # the tree under test (default /repo)
 COQ = VERIF / 'coq'
 THEORIES = COQ / 'theories'
